@@ -378,9 +378,15 @@ def _implied(f, pol, binds, depth):
             e = unwrap(payload)
             if e.get("e") == "path" and "local" in e["res"] and e["res"]["local"] in binds:
                 out.extend(_implied(cond(binds[e["res"]["local"]]), pol, binds, depth - 1))
-        if kind == "let" and depth > 0:
-            # `let Some(x) = local` where local was bound from an initialiser: keep as is
-            pass
+        if kind in ("let", "arm") and depth > 0:
+            # `let Some(x) = local` / `match local {..}` where local was bound from an initialiser:
+            # add the same literal over the initialiser
+            idx = 1 if kind == "let" else 0
+            e = unwrap(payload[idx])
+            if e.get("e") == "path" and "local" in e["res"] and e["res"]["local"] in binds:
+                init = binds[e["res"]["local"]]
+                np = (payload[0], init) if kind == "let" else (init, payload[1])
+                out.extend(_implied(("leaf", kind, np), pol, binds, depth - 1))
         return out
     return []
 
@@ -439,3 +445,48 @@ def arm_lit(lits, *variant_suffixes, pol=True):
         if has_token(tokens(pat), "def", *variant_suffixes):
             return leaf
     return None
+
+
+# ---------------------------------------------------------------------------
+# blocked conjunctions: guards of the form `if a && b { return }` / `if let Some(e) = x { if now >= e { return } }`
+# contribute not(a ∧ b), which implies no single literal. blocked() lists, for every fact, the
+# conjunctions of literals that are known to be FALSE at the site (DNF of the negated fact, bounded).
+
+def _dnf(f, pol, limit=64):
+    """DNF of (f if pol else not f) as a list of conjunctions; each conjunction is a list of (pol, leaf)."""
+    t = f[0]
+    if t == "true":
+        return [[]] if pol else []
+    if t == "false":
+        return [] if pol else [[]]
+    if t == "not":
+        return _dnf(f[1], not pol, limit)
+    if t == "leaf":
+        return [[(pol, f)]]
+    conj = (t == "and") == pol
+    parts = [_dnf(g, pol, limit) for g in f[1]]
+    if conj:
+        acc = [[]]
+        for p in parts:
+            acc = [a + b for a in acc for b in p]
+            if len(acc) > limit:
+                return acc[:limit]
+        return acc
+    out = []
+    for p in parts:
+        out.extend(p)
+    return out[:limit]
+
+
+def blocked(formulas):
+    """[[(pol, leaf), ...], ...]: each inner list is a conjunction known to be false at the site."""
+    out = []
+    for f in formulas:
+        for conj in _dnf(f, False):
+            if conj:
+                out.append(conj)
+    return out
+
+
+def render_blocked(bl):
+    return [" AND ".join(("" if p else "NOT ") + leaf_key(l) for (p, l) in c) for c in bl]
